@@ -43,6 +43,7 @@ def run(ctx):
     e_cleanup_keeps_needed(ctx)
     e_done_instances_inert(ctx)
     e_oldest_instance_not_read(ctx)
+    c_decoder_registers_first(ctx)
 
 
 def _enc_branches(enc):
@@ -83,8 +84,41 @@ def a_tags(ctx, enc, dec):
     ok = dataclass_branch and any(isinstance(n, ast.Compare) and "name_to_class" in src(n) and "d_type" in src(n) for n in ast.walk(dec))
     ctx.check("C11.a.tags", SER, "encode_to_dict/decode_from_dict", "dataclass tags", ok, "dataclass instances are tagged with their class name and looked up in name_to_class", line=enc.lineno)
     # __id registration on both sides
-    ok = "__id" in src(enc) and any(isinstance(n, ast.If) and "'__id' in d" in src(n.test) and "refs[" in src(n) for n in ast.walk(dec))
-    ctx.check("C11.a.tags", SER, "decode_from_dict", "__id registration", ok, "objects carrying __id are registered in refs when decoded, so later 'ref' markers resolve", line=dec.lineno)
+    # every decoded value that carries an `__id` is registered: each way out of the tagged branch chain either passed a registration (a store into refs under the
+    # `"__id" in d` test, directly or in the local helper) or is the `ref` branch / an error
+    cfg_d = CFG(dec)
+    helper_names = {f.name for f in ast.walk(dec) if isinstance(f, ast.FunctionDef) and f is not dec and any(
+        isinstance(a, ast.Assign) and isinstance(a.targets[0], ast.Subscript) and src(a.targets[0].value) == "refs" for a in ast.walk(f))}
+    reg_nodes = [n for n in cfg_d.nodes if n.ast is not None and n.kind in ("stmt", "test") and (
+        any(isinstance(a, ast.Assign) and isinstance(a.targets[0], ast.Subscript) and src(a.targets[0].value) == "refs" for a in walk_no_nested(n.ast)) or
+        any(isinstance(c, ast.Call) and isinstance(c.func, ast.Name) and c.func.id in helper_names for c in walk_no_nested(n.ast)))]
+    tag_tests = [n for n in cfg_d.nodes if n.kind == "test" and isinstance(n.ast, ast.expr) and "d_type" in src(n.ast) and not re.search(r"['\"]ref['\"]", src(n.ast))]
+    unregistered = []
+    for tt in tag_tests:
+        for m, lab in tt.succ:
+            if lab is not True:
+                continue
+            # from the branch body: can the function return without a registration?  (a registration inside `if "__id" in d:` counts when its test is passed)
+            seen, stack = set(), [m]
+            while stack:
+                x = stack.pop()
+                if x in seen or x in reg_nodes or x is cfg_d.raise_exit:
+                    continue
+                if x.kind == "test" and isinstance(x.ast, ast.expr) and "__id" in src(x.ast) and "in d" in src(x.ast).replace("'", '"'):
+                    # values without an id need no registration: follow only the true edge
+                    seen.add(x)
+                    stack.extend(y for y, l2 in x.succ if l2 is True)
+                    continue
+                if x is cfg_d.exit:
+                    unregistered.append(tt)
+                    break
+                seen.add(x)
+                stack.extend(y for y, _ in x.succ)
+    ok = "__id" in src(enc) and bool(reg_nodes) and bool(tag_tests) and not unregistered
+    ctx.check("C11.a.tags", SER, "decode_from_dict", "__id registration", ok,
+              "objects carrying __id are registered in refs when decoded, so later 'ref' markers resolve" if ok else
+              "a decoded value of the branch `%s` can be returned without being entered into `refs`: a second reference to the same object (a tuple / set / regex shared by two "
+              "variables) cannot be resolved when the state is restored" % (first_line(unregistered[0].ast, 50) if unregistered else "?"), line=(unregistered[0].line if unregistered else dec.lineno))
     # every dataclass that is encodable by name must be decodable: dataclasses defined outside colang_ast/flows are not in name_to_class
     tm = ctx.tree.ast(SER)
     mods = [src(n) for n in ast.walk(tm) if isinstance(n, ast.List) and "module" in src(n)]
@@ -538,6 +572,38 @@ def e_oldest_instance_not_read(ctx):
                                   "`%s` reads the OLDEST retained instance of the flow: which one that is depends on whether finished instances have been discarded yet (5 s of idle "
                                   "time) - the same conversation continues differently after a pause" % first_line(x, 50), line=x.lineno)
     ctx.stat("positional_reads_of_instance_lists", n)
+
+
+def c_decoder_registers_first(ctx):
+    """The mirror of C11.c.cycle-safe for the restore: an object that can hold references (dataclass instance, Action, dict, list, deque) must be entered into `refs` BEFORE its
+    members are decoded, otherwise a member that refers back to it (`{"__type": "ref"}`) is looked up before the object exists: "Could not find reference".  Decided per
+    decoder branch: the first recursive decode call is preceded by a registration (a store into `refs` or a call of the local helper that makes it)."""
+    t = ctx.tree.ast(SER)
+    dec = find_function(t, "decode_from_dict")
+    if dec is None:
+        raise AnalysisError("decode_from_dict not found", anchor=SER + "::decode_from_dict")
+    helpers = {f.name for f in ast.walk(dec) if isinstance(f, ast.FunctionDef) and f is not dec and any(
+        isinstance(a, ast.Assign) and isinstance(a.targets[0], ast.Subscript) and src(a.targets[0].value) == "refs" for a in ast.walk(f))}
+    branches = [i for i in ast.walk(dec) if isinstance(i, ast.If) and "d_type" in src(i.test)]
+    n = 0
+    for i in branches:
+        tags = [c.value for c in ast.walk(i.test) if isinstance(c, ast.Constant) and isinstance(c.value, str)]
+        holder = any(tg in ("dict", "list", "deque", "Action") for tg in tags) or "name_to_class" in src(i.test)
+        if not holder:
+            continue
+        rec = [c for st in i.body for c in ast.walk(st) if isinstance(c, ast.Call) and src(c.func) == "decode_from_dict"]
+        if not rec:
+            continue
+        n += 1
+        regs = [x for st in i.body for x in ast.walk(st) if (isinstance(x, ast.Assign) and isinstance(x.targets[0], ast.Subscript) and src(x.targets[0].value) == "refs")
+                or (isinstance(x, ast.Call) and isinstance(x.func, ast.Name) and x.func.id in helpers)]
+        first_rec = min((c.lineno, c.col_offset) for c in rec)
+        ok = bool(regs) and min((r.lineno, r.col_offset) for r in regs) < first_rec
+        ctx.check("C11.c.decoder-registers-first", SER, "decode_from_dict", "branch %s" % (tags or ["<dataclass>"]), ok,
+                  "the object is registered in `refs` before its members are decoded" if ok else
+                  "the members of a %s are decoded before the object is entered into `refs`: a member that refers back to it (a child flow holding its parent's FlowState, an event of "
+                  "the parent in a variable) cannot be resolved - the saved state cannot be restored" % (tags[0] if tags else "dataclass instance"), line=i.lineno)
+    ctx.floor("C11.c.decoder-registers-first", SER, "decoder branches for objects that hold references", n, 4)
 
 
 def e_done_instances_inert(ctx):
